@@ -1,4 +1,4 @@
-import Gmx.Lemmas.Swap
+import Gmx.Lemmas.Liquidity
 import Gmx.Model.Liquidity
 /-!
 # C04 — a swap moves exactly the traded tokens and is all-or-nothing
@@ -7,7 +7,8 @@ import Gmx.Model.Liquidity
 cache, validated, then written); `swapStep` is the state transition (a failing swap keeps `m`).
 `Market.holdings m side = liquidity + swap-impact pool + claimable fees` of a token side.
 All statements hold for EVERY market state, width, unit, request, prices and configuration
-(in particular for every state reachable by deposits, withdrawals and swaps: `swap_reachable`).
+(history level, by induction over operation lists: `history_conserved`, `history_frame`; the next
+swap in any reachable state: `swap_reachable`).
 -/
 namespace Gmx.C04
 open Gmx Gmx.Lem
@@ -156,14 +157,98 @@ theorem swap_rejects (W U : Nat) (m : Market) (q : SwapParams) :
   · intro h; simp [h]
   · intro h hp; simp [h, hp]
 
-/-- lifted to every state reachable from any market by deposits, withdrawals, swaps and clock
-ticks (including failed, partially applied deposits/withdrawals — the model crate's actions are
-not atomic): both conservation laws hold for the next swap. -/
-theorem swap_reachable {W U : Nat} (m₀ : Market) (ops : List LiqOp) {m' : Market} {q : SwapParams}
-    {c : SwapCalc} (h : swap W U (liqRun W U m₀ ops) q = .ok (m', c)) :
-    m'.holdings q.isInLong = (liqRun W U m₀ ops).holdings q.isInLong + q.amount ∧
-    m'.holdings (!q.isInLong) + c.tokenOut = (liqRun W U m₀ ops).holdings (!q.isInLong) :=
-  ⟨swap_in_conserved h, swap_out_conserved h⟩
+/-! ### every reachable state: histories of deposits, withdrawals, swaps and clock ticks -/
+
+/-- one committed operation conserves the tokens of both sides (`holdings after + out = holdings
+before + in`) and leaves everything outside the liquidity / swap-impact / claimable-fee pools, the
+swap virtual inventory, the supply and the clock untouched. -/
+theorem step_conserved (W U : Nat) (m : Market) (op : LiqOp) :
+    (liqStepA W U m op).1.holdings true + (liqStepA W U m op).2.outL = m.holdings true + (liqStepA W U m op).2.inL ∧
+    (liqStepA W U m op).1.holdings false + (liqStepA W U m op).2.outS = m.holdings false + (liqStepA W U m op).2.inS ∧
+    (liqStepA W U m op).1 = { m with primary := (liqStepA W U m op).1.primary, swapImpact := (liqStepA W U m op).1.swapImpact,
+                                      fee := (liqStepA W U m op).1.fee, viSwaps := (liqStepA W U m op).1.viSwaps,
+                                      supply := (liqStepA W U m op).1.supply, now := (liqStepA W U m op).1.now } := by
+  cases op with
+  | deposit d =>
+    simp only [liqStepA]
+    split
+    · rename_i m' t h
+      obtain ⟨a, b⟩ := Lem.deposit_holdings h
+      obtain ⟨fr, _, _⟩ := Lem.deposit_frame h
+      refine ⟨by simp only; omega, by simp only; omega, ?_⟩
+      simp only; rw [fr]
+    · exact ⟨rfl, rfl, rfl⟩
+  | withdraw w =>
+    simp only [liqStepA]
+    split
+    · rename_i m' r h
+      obtain ⟨a, b⟩ := Lem.withdraw_holdings h
+      have fr := (withdraw_spec h).frame
+      have hi := (withdraw_spec h).impact
+      refine ⟨by simp only; omega, by simp only; omega, ?_⟩
+      simp only; rw [fr]
+    · exact ⟨rfl, rfl, rfl⟩
+  | swap q =>
+    simp only [liqStepA]
+    split
+    · rename_i m' c h
+      have a := swap_in_conserved h
+      have b := swap_out_conserved h
+      obtain ⟨fr, _⟩ := swap_other_untouched h
+      cases hq : q.isInLong <;> simp only [hq, Bool.not_true, Bool.not_false, if_true, if_false, Bool.false_eq_true] at a b ⊢
+      · refine ⟨by omega, by omega, ?_⟩; rw [fr]
+      · refine ⟨by omega, by omega, ?_⟩; rw [fr]
+    · exact ⟨rfl, rfl, rfl⟩
+  | tick s => exact ⟨rfl, rfl, rfl⟩
+
+/-- **conservation along every history** (induction over the operation list, from ANY initial
+market): after any sequence of committed deposits, withdrawals, swaps and clock ticks, per token
+`holdings after + Σ paid out = holdings before + Σ paid in`. -/
+theorem history_conserved {W U : Nat} (ops : List LiqOp) :
+    ∀ m : Market,
+      (liqRunA W U m ops).1.holdings true + (liqRunA W U m ops).2.outL = m.holdings true + (liqRunA W U m ops).2.inL ∧
+      (liqRunA W U m ops).1.holdings false + (liqRunA W U m ops).2.outS = m.holdings false + (liqRunA W U m ops).2.inS := by
+  induction ops with
+  | nil => intro m; simp [liqRunA]
+  | cons op ops ih =>
+    intro m
+    obtain ⟨s1, s2, _⟩ := step_conserved W U m op
+    obtain ⟨i1, i2⟩ := ih (liqStepA W U m op).1
+    simp only [liqRunA, Flow.add]
+    omega
+
+/-- **frame along every history**: open interest, collateral, position-impact, borrowing and
+funding pools, the funding rate, the fee clocks, the position virtual inventory and the
+configuration of every reachable state are those of the initial market. -/
+theorem history_frame {W U : Nat} (ops : List LiqOp) :
+    ∀ m : Market,
+      (liqRunA W U m ops).1 = { m with primary := (liqRunA W U m ops).1.primary, swapImpact := (liqRunA W U m ops).1.swapImpact,
+                                        fee := (liqRunA W U m ops).1.fee, viSwaps := (liqRunA W U m ops).1.viSwaps,
+                                        supply := (liqRunA W U m ops).1.supply, now := (liqRunA W U m ops).1.now } := by
+  induction ops with
+  | nil => intro m; rfl
+  | cons op ops ih =>
+    intro m
+    obtain ⟨_, _, fr⟩ := step_conserved W U m op
+    have := ih (liqStepA W U m op).1
+    simp only [liqRunA]
+    rw [this, fr]
+
+/-- **the next swap in any reachable state** (committed histories `liqRunA`, or the model crate's
+own non-atomic histories `liqRun` incl. partially applied failing deposits / withdrawals): exact
+conservation on both token sides, frame, and all-or-nothing. The three clauses hold in every
+market, hence in every reachable one; the history-level content is `history_conserved` /
+`history_frame` above. -/
+theorem swap_reachable {W U : Nat} (m₀ : Market) (ops : List LiqOp) (q : SwapParams) :
+    (∀ m, (m = (liqRunA W U m₀ ops).1 ∨ m = liqRun W U m₀ ops) →
+      (∀ m' c, swap W U m q = .ok (m', c) →
+        m'.holdings q.isInLong = m.holdings q.isInLong + q.amount ∧
+        m'.holdings (!q.isInLong) + c.tokenOut = m.holdings (!q.isInLong) ∧
+        m' = { m with primary := m'.primary, swapImpact := m'.swapImpact, fee := m'.fee, viSwaps := m'.viSwaps }) ∧
+      (∀ e, (swapStep W U m q).2 = .error e → (swapStep W U m q).1 = m)) := by
+  intro m _
+  exact ⟨fun m' c h => ⟨swap_in_conserved h, swap_out_conserved h, (swap_other_untouched h).1⟩,
+         fun e h => swap_fail_unchanged h⟩
 
 /-- along a whole history, the token holdings change only by what the swaps moved: for a history
 of swaps alone, `holdings after = holdings before + Σ inputs − Σ outputs` per token side. -/
@@ -355,5 +440,14 @@ example : swapImpactValue 64 1000000000 cfg0.swapImpact (some ⟨9000000000, 100
     swapImpactValue 64 1000000000 cfg0.swapImpact (some ⟨9000000000, 1000000000⟩)
       ⟨3000000000, 1000000000, 3100000000, 900000000⟩ 100000000 (-100000000) 1 1 false = some (-6720, .worsened) := by
   decide +kernel
+
+/-- `history_conserved` / `history_frame` on a committed 7-operation history from `m0`: deposit, tick,
+swap, a swap that FAILS (output beyond the liquidity — reverted, no flow), withdrawal, an empty
+deposit (rejected), swap back. In 150 000 000 long / 50 000 000 short, out 37 720 174 long /
+102 182 247 short; holdings 3 000 001 000 → 3 112 280 826 and 1 000 000 050 → 947 817 803. -/
+example : (let r := liqRunA 64 1000000000 m0 [.deposit ⟨50000000, 20000000, pr0⟩, .tick 7, .swap ⟨true, 100000000, pr0⟩,
+      .swap ⟨true, 9000000000, pr0⟩, .withdraw ⟨10000000, pr0⟩, .deposit ⟨0, 0, pr0⟩, .swap ⟨false, 30000000, pr0⟩]
+    (r.2, r.1.holdings true, r.1.holdings false, m0.holdings true, m0.holdings false, r.1.now))
+    = (⟨150000000, 50000000, 37720174, 102182247⟩, 3112280826, 947817803, 3000001000, 1000000050, 7) := by decide +kernel
 
 end Gmx.C04
